@@ -2,26 +2,26 @@
     flows into the emitted bytes, what Reset clears and what it keeps.
     Executable, no proofs (Reset/Proofs.v).
 
-    Go sources mirrored (/repo, line numbers at the time of writing):
-      writer.go:737-879    newConcurrentRowGroupWriter           -> col_init
-      writer.go:881-886    ConcurrentRowGroupWriter.reset        -> map col_reset
-      writer.go:1035-1072  ConcurrentRowGroupWriter.writeRows    -> lwrite (remain, chunks of 64)
-      writer.go:1101-1206  newWriter (metadata sorted)           -> linit / init_of_map
-      writer.go:1211-1261  writer.reset                          -> lreset / reset_caps
-      writer.go:1242-1259  writer.close                          -> lclose
-      writer.go:1266-1279  writer.writeFileHeader                -> lheader
-      writer.go:1303-1499  writer.writeFileFooter                -> emit_cindexes/emit_oindexes/footer
-      writer.go:1501-1854  writer.writeRowGroup (reuse of retained
-                           rowGroups/columnIndexes/offsetIndexes) -> lflush_core
-      writer.go:1856-1871  writer.WriteRows (flush on ErrTooManyRowGroups)
-      writer.go:2045-2094  ColumnWriter.reset                    -> col_reset
-      writer.go:2105-2143  ColumnWriter.Flush (dictionary limit) -> col_flush_page
-      writer.go:2360-2380  ColumnWriter.WriteRowValues           -> col_write
-      writer.go:2720-2754  fallbackDictionaryToPlain             -> c_enc/c_switched
-      writer.go:2790-2895  recordPageStats                       -> accumulators of colacc
-      writer.go:651-666    Writer.SetKeyValueMetadata            -> set_kv
-      file.go:671-678      sortKeyValueMetadata                  -> sort_kv
-      format/parquet.go:1150 RowGroup.Reset, format/reset.go     -> slot_clear
+    Go sources mirrored (/repo writer.go, first line of each function at the time of writing):
+      743   newConcurrentRowGroupWriter                   -> col_init
+      887   ConcurrentRowGroupWriter.reset                -> map col_reset
+      1041  ConcurrentRowGroupWriter.writeRows            -> lwrite (remain, chunks of 64)
+      1110  newWriter (metadata sorted, configMetadata)   -> linit / init_of_map
+      1218  writer.reset                                  -> lreset / reset_caps
+      472, 1269  Writer.Close, writer.close               -> lclose
+      1293  writer.writeFileHeader                        -> lheader
+      1330  writer.writeFileFooter                        -> emit_cindexes / emit_oindexes / EvFooter
+      1528  writer.writeRowGroup (reuse of the retained
+            rowGroups/columnIndexes/offsetIndexes)        -> lflush_core
+      1888  writer.WriteRows (flush on ErrTooManyRowGroups)-> lwrite
+      2077  ColumnWriter.reset                            -> col_reset
+      2138  ColumnWriter.Flush (dictionary limit)         -> col_flush_page
+      2393  ColumnWriter.WriteRowValues                   -> col_write
+      2753  fallbackDictionaryToPlain                     -> c_enc / c_switched
+      2823  recordPageStats                               -> accumulators of colacc
+      657   Writer.SetKeyValueMetadata                    -> set_kv
+      file.go:671  sortKeyValueMetadata                   -> sort_kv
+      format/parquet.go:1150 RowGroup.Reset, format/reset.go -> slot_clear
 
     Abstractions.  A row is an opaque identifier [N]; every column receives the
     identifiers of the rows.  The encoding of the rows of a page is a Section
